@@ -175,7 +175,7 @@ func anyKeyPair() (*KeyPair, verif.BV) {
 	return sk.KeyPair(), kv
 }
 
-//verif:ob prop=C12 name=Sign_and_Verify_vs_schnorrkel mode=bv tags=purego use=gapi,strobe.kf_keccak split=nm:0..2
+//verif:ob prop=C12,C18 name=Sign_and_Verify_vs_schnorrkel mode=bv tags=purego use=gapi,strobe.kf_keccak split=nm:0..2 sharedro=1
 func vh_C12_sign() {
 	kp, kv := anyKeyPair()
 	msg := make([]byte, verif.Case("nm"))
